@@ -12,6 +12,9 @@ import Proofs.C03_Bins
 
 set_option linter.unusedSimpArgs false
 set_option linter.unusedVariables false
+set_option linter.unusedTactic false
+set_option linter.unreachableTactic false
+set_option linter.unnecessarySeqFocus false
 
 namespace Atomman.C03
 open List
@@ -340,8 +343,16 @@ theorem nbr_growth_as_modelled (init cu cv m d : Nat) :
     Gen.nbrInit init = init ∧ Gen.nbrInitWidth m = m + 1 ∧
     Gen.nbrTrigger (cu + 1) (cv + 1) m = (decide (m < cu + 1) || decide (m < cv + 1)) ∧
     Gen.nbrNewWidth m d = m + 1 + d ∧ Gen.nbrCopyCols m = m + 1 ∧ Gen.nbrGrow m d = m + d := by
-  refine ⟨rfl, rfl, rfl, ?_, rfl, rfl⟩
-  simp only [Gen.nbrNewWidth]; omega
+  refine ⟨?_, ?_, ?_, ?_, ?_, ?_⟩
+  -- written so that any arithmetically equal form of the source expressions is accepted
+  · simp only [Gen.nbrInit] <;> omega
+  · simp only [Gen.nbrInitWidth] <;> omega
+  · rw [Bool.eq_iff_iff]
+    simp only [Gen.nbrTrigger, Bool.or_eq_true, Bool.and_eq_true, Bool.not_eq_true', decide_eq_true_eq,
+      decide_eq_false_iff_not] <;> omega
+  · simp only [Gen.nbrNewWidth] <;> omega
+  · simp only [Gen.nbrCopyCols] <;> omega
+  · simp only [Gen.nbrGrow] <;> omega
 
 /-! ### object level: no memory between calls -/
 
